@@ -108,3 +108,30 @@ Theorem C14_gen_active_psucc_in_01_sigma_pos :
   0 < (gen_active_rank1_scalar (ROps exp_ round_) P psucc sigma p_succ).2.
 Proof. exact: gen_active_rank1_scalar_range. Qed.
 Print Assumptions C14_gen_active_psucc_in_01_sigma_pos.
+
+(* ---- StrategyActiveOnePlusLambda.update: the success frequency handed to _rank1update ---- *)
+Theorem C14_gen_active_p_succ_is_model :
+  forall (R : rcfType) (exp_ round_ : R -> R) (pfit : option (fitness (T:=R))) pop,
+  gen_active_p_succ (ROps exp_ round_) pfit pop = active_p_succ (ROps exp_ round_) pfit pop.
+Proof. exact: gen_active_p_succ_eq. Qed.
+Print Assumptions C14_gen_active_p_succ_is_model.
+
+(* the rank-one half of the model's update is _rank1update on the best valid offspring with the regenerated success
+   frequency (counted over the VALID offspring only, all of them when the parent has no fitness) *)
+Theorem C14_gen_active_update_uses_regenerated_frequency :
+  forall (R : rcfType) (exp_ round_ : R -> R) (P : aparams (T:=R)) st pop,
+  active_update_rank1 (ROps exp_ round_) P st pop =
+  match gen_active_p_succ (ROps exp_ round_) (as_pfit st) pop,
+        sort_desc (fun a b => c_lt (ROps exp_ round_) (ai_fit a) (ai_fit b))
+                  (List.filter (fun i => f_valid (ai_fit i)) pop) with
+  | Some p, best :: _ => rank1update (ROps exp_ round_) P st best p
+  | _, _ => st
+  end.
+Proof. exact: gen_active_p_succ_spec. Qed.
+Print Assumptions C14_gen_active_update_uses_regenerated_frequency.
+
+Theorem C14_gen_active_p_succ_in_01 :
+  forall (R : rcfType) (exp_ round_ : R -> R) (pfit : option (fitness (T:=R))) pop p,
+  gen_active_p_succ (ROps exp_ round_) pfit pop = Some p -> 0 <= p <= 1.
+Proof. exact: gen_active_p_succ_range. Qed.
+Print Assumptions C14_gen_active_p_succ_in_01.
